@@ -25,7 +25,7 @@ type C15Case struct {
 var _ = Register("C15", func() interface{} { return new(C15Case) }, func(c interface{}) string { return c15Oracle(c.(*C15Case)) })
 
 var c15Decl = &GenCfg{Depth: 2, Fanout: 3, MaxOpts: 4, MaxGroups: 2, NestGroups: 1, Kinds: []Kind{KMapSS, KMapSI, KMapIS, KMapFS, KString, KInt, KStringSlice, KBool, KFuncS, KInt8},
-	Ns: true, Req: 30, Choices: true, Defaults: true, Hidden: true, Desc: true, Bases: false, Aliases: true, SubOpt: 30, CmdPct: 80, Env: true,
+	Ns: true, Req: 30, Choices: true, Defaults: true, Hidden: true, Desc: true, Bases: false, Aliases: true, SubOpt: 30, CmdPct: 80, Env: true, ViaAdd: 5, InCode: 8,
 	ParserOpts: []flags.Options{flags.HelpFlag, flags.PassDoubleDash, flags.IgnoreUnknown}}
 
 var c15Argv = &ArgvCfg{MaxItems: 3, WOpt: 50, WCluster: 4, WCmd: 4, WPlain: 4, WTerm: 1, WUnknown: 3, WJunk: 1, WRepeat: 30, BadVal: 3, Quote: 3, Help: 3}
@@ -127,7 +127,7 @@ func genC15(t *rapid.T) *C15Case {
 		nb := 0
 		for _, o := range d.AllOpts() {
 			if (o.Kind == KInt || o.Kind == KInt8 || o.Kind == KMapSI) && len(o.Chain) == 1 && o.IniName == "" && nb < 3 {
-				text += fmt.Sprintf("[%s]\n%s = notanumber\n", o.Groups[len(o.Groups)-1].Desc, o.Field)
+				text += fmt.Sprintf("[%s]\n%s = notanumber\n", o.Groups[len(o.Groups)-1].Desc, iniKeyOf(o))
 				nb++
 			}
 		}
